@@ -1012,8 +1012,40 @@ def combos(rng):
     return out
 
 
+def returned_initials_probe(rep, rng):
+    """'from the configured initial_solutions when the archive is empty': what ask() hands out on an empty archive is not the emitter's own
+    copy -- a caller that edits the returned batch in place and asks again (a retry, or after archive.clear()) gets the configured values"""
+    from ribs import emitters as E
+    from ribs.archives import GridArchive
+    for dt in (np.float64, np.float32):
+        for bounds in (None, [(-5.0, 5.0), (None, None)]):
+            archive = GridArchive(solution_dim=2, dims=[3, 3], ranges=[(-1, 1), (-1, 1)], dtype=dt)
+            init = np.array([[0.25, -0.5], [1.5, 2.0], [-3.0, 0.75]], dtype=dt)
+            ems = {"GaussianEmitter": E.GaussianEmitter(archive, sigma=0.1, initial_solutions=init.copy(), bounds=bounds, batch_size=3, seed=1),
+                   "IsoLineEmitter": E.IsoLineEmitter(archive, initial_solutions=init.copy(), bounds=bounds, batch_size=3, seed=1),
+                   "GeneticAlgorithmEmitter": E.GeneticAlgorithmEmitter(archive, initial_solutions=init.copy(), bounds=bounds, batch_size=3, operator="gaussian",
+                                                                        operator_kwargs={"sigma": 0.1, "seed": 1}),
+                   "GradientOperatorEmitter": E.GradientOperatorEmitter(archive, sigma=0.1, sigma_g=0.1, initial_solutions=init.copy(), bounds=bounds, batch_size=3, seed=1)}
+            for name, em in ems.items():
+                rep.count("returned_initials_probes")
+                for which in ("ask",):
+                    first = getattr(em, which)()
+                    try:
+                        np.asarray(first)[...] = 777.0
+                    except ValueError:
+                        pass            # read-only: fine
+                    second = np.asarray(getattr(em, which)())
+                    if second.shape != init.shape or not np.array_equal(second, init):
+                        rep.violation("%s.%s() on an empty archive, the returned batch overwritten by the caller, %s() again: returns %s instead of the configured "
+                                      "initial_solutions %s (bounds %s, dtype %s)" % (name, which, which, second.tolist(), init.tolist(), bounds, np.dtype(dt).name),
+                                      {"kind": "property", "broken": "C08 (ask returns the configured initial_solutions when the archive is empty)", "emitter": name,
+                                       "bounds": bounds, "dtype": np.dtype(dt).name}, True, {"kind": "initial-solutions-handed-out"})
+                        return
+
+
 def check(rep, tier, seed, driver):
     py2v_op.report(rep)
+    returned_initials_probe(rep, random.Random(seed + 11))
     rng = random.Random(seed)
     n = 600 if tier == "quick" else 6000
     rep.rule = ("ask/tell histories (3-10 iterations, interleaved with archive.clear() and solutions added by a third party) of every "
